@@ -177,7 +177,11 @@ theorem frameInto_sim (cfg : Cfg) {t : TCfg} (ht : t.Ok) {b : Prop} (hb : b → 
 /-- **`next_frame` on related readers** -/
 theorem nextFrameBuf_sim (cfg : Cfg) {t : TCfg} (ht : t.Ok) {b : Prop} (hb : b → t.SnapIndep) {r r' : R} (buf : Bytes)
     (h : PSim b r r') (hI : Inv t r) (hI' : Inv t r') : SimRes b (nextFrameBuf cfg t r buf) (nextFrameBuf cfg t r' buf) := by
-  unfold nextFrameBuf
+  rw [nextFrameBuf_eq, nextFrameBuf_eq, h.sub]
+  by_cases hc : r.sub.cur.isSome = true
+  · rw [if_pos hc, if_pos hc]; exact frameInto_sim cfg ht hb buf h hI hI'
+  rw [if_neg hc, if_neg hc]
+  unfold nextFrameBuf0
   rw [h.remaining, h.sub]
   by_cases hrem : r.remaining = 0
   · rw [if_pos hrem, if_pos hrem]; exact ⟨h, rfl⟩
